@@ -1850,13 +1850,21 @@ int hostlist_delete_host(hostlist_t hl, const char *hostname)
 static char *
 _hostrange_string(hostrange_t hr, int depth)
 {
-    char buf[MAXHOSTNAMELEN + 16];
-    int  len = snprintf(buf, MAXHOSTNAMELEN + 15, "%s", hr->prefix);
+    char *buf;
+    /* room for the prefix, the zero padded number (an unsigned long has
+     * at most 20 digits) and the terminating NUL */
+    int len = strlen(hr->prefix) + 1;
 
     if (!hr->singlehost)
-        snprintf(buf+len, MAXHOSTNAMELEN+15 - len, "%0*lu",
-                 hr->width, hr->lo + depth);
-    return strdup(buf);
+        len += hr->width > 20 ? hr->width : 20;
+    if (!(buf = malloc(len)))
+        out_of_memory("hostlist_nth");
+
+    if (hr->singlehost)
+        snprintf(buf, len, "%s", hr->prefix);
+    else
+        snprintf(buf, len, "%s%0*lu", hr->prefix, hr->width, hr->lo + depth);
+    return buf;
 }
 
 char * hostlist_nth(hostlist_t hl, int n)
